@@ -63,7 +63,9 @@ fn gen_ty(d: &mut D, structs: &[usize], enums: &[usize], allow_nested: bool) -> 
 fn gen_field(d: &mut D, name: String, id: usize, j: usize, structs: &[usize], enums: &[usize], nested: bool, in_variant: bool) -> Field {
     let mut f = Field::plain(&name, gen_ty(d, structs, enums, nested));
     if d.ratio(1, 5) {
-        f.rename = Some(match d.below(3) {
+        f.rename = Some(match d.below(4) {
+            // (the field's own identifier as its explicit name: stands as written under every case rule)
+            3 => name.clone(),
             0 => format!("rn{}_{}", id, j),
             1 => format!("p{}::q{}", id, j),
             _ => format!("Rn{}X{}", id, j),
@@ -189,6 +191,11 @@ pub fn gen_struct(d: &mut D, id: usize, tr: Trait, structs: &[usize], enums: &[u
             let k = c.attributes.len() - 1;
             c.attributes[k] = "r#type".to_string();
         }
+        // (a receiver may claim `doc` itself: `#[doc(..)]` lists are then its own attributes)
+        if d.ratio(1, 10) {
+            let k = d.below(c.attributes.len());
+            c.attributes[k] = "doc".to_string();
+        }
         // (undocumented option; for FromField it needs From<Option<Ident>>, FromAttributes has no ident)
         c.from_ident = c.default == Dflt::None && d.ratio(1, 6) && matches!(tr, Trait::FromDeriveInput | Trait::FromVariant | Trait::FromTypeParam);
     }
@@ -271,7 +278,12 @@ pub fn gen_enum(d: &mut D, id: usize, structs: &[usize], enums: &[usize]) -> Spe
         have_word |= word;
         vs.push(Variant {
             rust_name: format!("{}{}", vnames[i], id),
-            rename: if d.ratio(1, 5) { Some(format!("vr{}_{}", id, i)) } else { None },
+            // (an explicit name may well be the variant's own identifier: it then stands as written, whatever the case rule)
+            rename: match d.below(10) {
+                0 | 1 => Some(format!("vr{}_{}", id, i)),
+                2 => Some(format!("{}{}", vnames[i], id)),
+                _ => None,
+            },
             // known finding (DESIGN section 5 #12): skip + word on one variant is excluded by construction
             skip: i > 0 && !word && d.ratio(1, 6),
             word,
